@@ -292,7 +292,7 @@ def run(ctx):
     ctx.require(obj_slot and oldend_slot, "Ports::dispatch: locals obj / old_end not found")
     # callback invocations: calls of std::function::operator()
     cbs = [c for c in f.calls() if not c.indirect and re.match(r'^std::function<void \(char const\*, rtosc::RtData&\)>::operator\(\)', P.dm(c.callee))]
-    ctx.require(len(cbs) == 5, "Ports::dispatch: expected 5 callback invocations (3 port.cb, 2 default_handler), found %d" % len(cbs))
+    ctx.require(len(cbs) >= 5, "Ports::dispatch: expected at least 5 callback invocations (3 port.cb, default_handler in every lookup branch), found %d" % len(cbs))
 
     def cb_kind(c):
         """('port', slot of the Port pointer) or ('default', None)"""
@@ -439,6 +439,117 @@ def run(ctx):
             bad = [mu for mu in muts if FL.escapes(g, mu, refresh, [i for i in g.insts() if i.op == "ret"]) is not None]
             ctx.ob("R04.5", P.dm(g.name).split("(")[0], bool(refresh) and not bad, site="%s:%s" % (g.file, g.line), detail={"mutations": len(muts), "refreshMagic_calls": len(refresh)},
                    what="%s can return after changing the port table without refreshMagic()" % P.dm(g.name).split("(")[0])
+
+    # ---- R04.9 (AST, evaluated): which ports MergePorts takes for duplicates
+    ctx.rule("R04.9", "MERGE-KEEPS: MergePorts drops a port only if a port with the very same name - path and ':types' specification - is already in the merged table; the test it makes, evaluated on pairs of names, is exact equality (ports that share a path but admit different types are different ports)")
+    fmg = [f_ for q_, fl_ in u.functions.items() if q_.endswith("MergePorts::MergePorts") for f_ in fl_ if u.body(f_) is not None]
+    ctx.require(len(fmg) == 1, "R04.9: MergePorts constructor not found")
+    conds9 = []
+    for x in A.walk(u.body(fmg[0])):
+        if x.get("kind") == "IfStmt":
+            vars_ = {A.ref_id(A.kids(y)[0]) for y in A.walk(A.kids(x)[0]) if y.get("kind") == "MemberExpr" and y.get("name") == "name" and A.kids(y) and A.ref_id(A.kids(y)[0])}
+            if len(vars_) == 2:
+                conds9.append((x, sorted(vars_)))
+    ctx.require(len(conds9) == 1, "R04.9: the duplicate test of MergePorts (a condition on the names of two ports) was not found (%d)" % len(conds9))
+    ifx, (va_, vb_) = conds9[0]
+    pairs9 = [("level:i", "level:i", True), ("level:i", "level:f", False), ("level", "level:f", False), ("level:f", "level", False), ("a", "ab", False), ("ab", "a", False),
+              ("x#4/", "x#4/", True), ("x#4/", "x#3/", False), ("p::i", "p::i", True), ("p::i", "p::f", False), ("", "", True)]
+    bad9 = []
+    for na, nb, same in pairs9:
+        BA, BB = 4096, 8192
+
+        def deref9(a_, n_, na=na, nb=nb):
+            if BA <= a_ <= BA + len(na):
+                return ord(na[a_ - BA]) if a_ - BA < len(na) else 0
+            if BB <= a_ <= BB + len(nb):
+                return ord(nb[a_ - BB]) if a_ - BB < len(nb) else 0
+            raise FD.Unknown("read outside the names", n_)
+
+        def txt9(v_, na=na, nb=nb):
+            if isinstance(v_, str):
+                return v_
+            if BA <= v_ <= BA + len(na):
+                return na[v_ - BA:]
+            if BB <= v_ <= BB + len(nb):
+                return nb[v_ - BB:]
+            raise FD.Unknown("string operand %r" % (v_,))
+        holder9 = {}
+
+        def call9(nm, vals, n_):
+            if nm == "strcmp":
+                a_, b_ = txt9(vals[0]), txt9(vals[1])
+                return (a_ > b_) - (a_ < b_)
+            if nm in ("strncmp", "memcmp"):
+                a_, b_ = txt9(vals[0])[:vals[2]], txt9(vals[1])[:vals[2]]
+                return (a_ > b_) - (a_ < b_)
+            if nm == "strlen":
+                return len(txt9(vals[0]))
+            if nm in ("strcspn", "strspn"):
+                t_, set_ = txt9(vals[0]), txt9(vals[1])
+                i_ = 0
+                while i_ < len(t_) and ((t_[i_] in set_) == (nm == "strspn")):
+                    i_ += 1
+                return i_
+            if nm == "strchr":
+                t_ = txt9(vals[0])
+                i_ = t_.find(chr(vals[1])) if vals[1] else len(t_)
+                return vals[0] + i_ if i_ >= 0 else 0
+            fns_ = [f_ for f_ in u.functions.get(nm, []) if u.body(f_) is not None]
+            if len(fns_) == 1:
+                return holder9["ev"].call_function(u, fns_[0], vals)
+            raise FD.Unknown("call to %s" % nm, n_)
+
+        def hook9(n_, ev_, va_=va_, vb_=vb_):
+            if n_.get("kind") == "MemberExpr" and n_.get("name") == "name" and A.kids(n_):
+                rid = A.ref_id(A.kids(n_)[0])
+                if rid == va_:
+                    return BA
+                if rid == vb_:
+                    return BB
+            if n_.get("kind") == "StringLiteral":
+                return A.string_literal(n_)
+            if n_.get("kind") == "ImplicitCastExpr" and n_.get("castKind") == "ArrayToPointerDecay" and A.string_literal(A.kids(n_)[0]) is not None:
+                return A.string_literal(A.kids(n_)[0])
+            return NotImplemented
+        ev9 = FD.Eval(deref=deref9, call=call9, node_hook=hook9, max_steps=2000)
+        holder9["ev"] = ev9
+        try:
+            got9 = bool(ev9.ev(A.kids(ifx)[0]))
+        except FD.Unknown as e:
+            raise AnalysisBroken("R04.9: the duplicate test of MergePorts is not evaluable on (%r, %r): %s" % (na, nb, e))
+        if got9 != same:
+            bad9.append({"names": [na, nb], "taken_for_duplicates": got9})
+    ctx.ob("R04.9", "MergePorts: duplicate test", not bad9, site=A.where(ifx), detail={"pairs": len(pairs9), "mismatches": bad9[:4]},
+           what="MergePorts takes %s for the same port: the later one is dropped from the merged table and its messages reach no callback" % [b_["names"] for b_ in bad9[:3]])
+
+    # ---- R04.10 (AST): the default handler does not depend on the lookup strategy
+    ctx.rule("R04.10", "DEFAULT-EVERYWHERE: every way Ports::dispatch looks a message up ends, when no port matched, in the table's default handler: each linear scan over the ports (a loop that calls rtosc_match) is followed by a test of default_handler, as the hashed lookup is - otherwise the callbacks a message reaches depend on whether a location buffer is supplied")
+    fd10 = u.function("Ports::dispatch")
+    hosts10 = [fd10]
+    for c_ in A.calls_in(u.body(fd10)):
+        nm_ = A.callee_name(c_)
+        for q_, fl_ in u.functions.items():
+            if nm_ and q_.split("::")[-1] == nm_:
+                for h_ in fl_:
+                    if u.body(h_) is not None and h_ not in hosts10 and (A.loc(h_)[0] or "").endswith("ports.cpp"):
+                        hosts10.append(h_)
+    scans10 = []
+    for h_ in hosts10:
+        for lp in A.walk(u.body(h_)):
+            if lp.get("kind") in ("ForStmt", "CXXForRangeStmt", "WhileStmt") and any(A.callee_name(c_) == "rtosc_match" for c_ in A.calls_in(lp)):
+                if not any(l2 is not lp and l2.get("kind") in ("ForStmt", "CXXForRangeStmt", "WhileStmt") and any(A.callee_name(c_) == "rtosc_match" for c_ in A.calls_in(l2)) for l2 in A.walk(lp)):
+                    scans10.append((h_, lp))
+    ctx.require(len(scans10) >= 1, "R04.10: no linear scan (a loop calling rtosc_match) found in Ports::dispatch")
+    for h_, lp in scans10:
+        par = u.parent.get(lp.get("id"))
+        after = []
+        if par is not None and par.get("kind") == "CompoundStmt":
+            sibs = A.kids(par)
+            after = sibs[[s_.get("id") for s_ in sibs].index(lp.get("id")) + 1:]
+        uses = any(y.get("kind") == "MemberExpr" and y.get("name") == "default_handler" for s_ in after for y in A.walk(s_))
+        ctx.ob("R04.10", "linear scan@%s" % A.loc(lp)[1], uses, site=A.where(lp), detail={"followed_by_default_handler": uses},
+               key="R04.10:scan@%s" % ("with location" if any(y.get("kind") == "MemberExpr" and y.get("name") == "matches" for y in A.walk(lp)) else "without location"),
+               what="the linear scan of Ports::dispatch at %s ends without consulting default_handler: a message no port matches reaches the default handler only through the hashed lookup (with a location buffer and a collision-free table)" % A.where(lp))
 
     # ---- R04.6 (AST)
     fd = u.function("Ports::dispatch")
